@@ -74,11 +74,12 @@ package cache
 //@ extern crypto/sha256.Sum256(data []byte) [32]byte
 //@   pure
 //@ extern os.ReadFile(name string) (data []byte, err error)
-//@ ghost fileSize(name string) int64
 //@ extern (io/fs.FileInfo).Size() int64
 //@   pure
+// (assumption: os.Stat fails only for files that do not exist)
 //@ extern os.Stat(name string) (info fs.FileInfo, err error)
-//@   ensures err == nil ==> info != nil && info.Size() == fileSize(name)
+//@   ensures err == nil ==> info != nil && (name in disk) && info.Size() == len(disk[name])
+//@   ensures err != nil ==> !(name in disk)
 //@ extern (honnef.co/go/tools/lintcmd/cache.Cache).Get(id ActionID) (e Entry, err error)
 //@ extern (honnef.co/go/tools/lintcmd/cache.Cache).OutputFile(out OutputID) string
 //@   pure
@@ -88,7 +89,7 @@ package cache
 //@   ensures [checksum] result2 == nil ==> sha256.Sum256(result0) == result1.OutputID
 // GetFile returns a file name only if the file currently has the size recorded in the index entry.
 //@ func GetFile
-//@   ensures [size] err == nil ==> file == c.OutputFile(entry.OutputID) && fileSize(file) == entry.Size
+//@   ensures [size] err == nil ==> file == c.OutputFile(entry.OutputID) && (file in disk) && len(disk[file]) == entry.Size
 
 //@ prop C04
 
@@ -110,3 +111,142 @@ package cache
 //@ func FileHash
 //@   trusted
 //@   ensures result1 == nil ==> result0 == contentHash(file)
+
+//@ prop C05
+
+// ======== TOP-4: commit order = crash invariant of copyFile ========
+// Sequential POSIX-style model (TRUSTED): the external state is
+//   disk   : file name -> contents
+//   foff   : write offset of an open *os.File
+//   rpos   : read offset of the source ReadSeeker (its contents rdata(file) do not change:
+//            Put's documented precondition)
+//   hashed : bytes absorbed by a hash.Hash
+// Every I/O call changes this state by its documented effect; a crash or short write is "any
+// prefix of the requested bytes was written". A crash of the process leaves exactly the state
+// after some I/O call, so an invariant that holds after every call holds at every crash point.
+//@ ghostvar disk map[string][]byte
+//@ ghostvar foff map[*os.File]int
+//@ ghostvar rpos map[io.ReadSeeker]int
+//@ ghostvar hashed map[hash.Hash][]byte
+//@ ghost fname(f *os.File) string
+//@ ghost rdata(file io.ReadSeeker) []byte
+//@ ghost mwFile(w io.Writer) *os.File
+//@ ghost mwHash(w io.Writer) hash.Hash
+// SHA-256 as a function of the byte sequence: extensional and (assumption: collision free) injective
+//@ ghost sha(b []byte) [32]byte
+//@ group shaspec
+// (extensionality is stated with a witness index shadiff(a, b) at which a and b differ if they
+// differ at all; this is equivalent to the element-wise formulation and free of nested quantifiers)
+//@ ghost shadiff(a []byte, b []byte) int
+//@ axiom [sha_ext] forall a []byte, b []byte :: {sha(a), sha(b)} len(a) == len(b) && !(0 <= shadiff(a, b) && shadiff(a, b) < len(a) && a[shadiff(a, b)] != b[shadiff(a, b)]) ==> sha(a) == sha(b)
+//@ axiom [sha_inj] forall a []byte, b []byte :: {sha(a), sha(b)} sha(a) == sha(b) ==> len(a) == len(b) && (forall i int :: {a[i]} 0 <= i && i < len(a) ==> a[i] == b[i])
+//@ axiom [sha_canon] forall a []byte, i int :: {sha(a)[i]} (i < 0 || i >= 32) ==> sha(a)[i] == 0
+//@ group
+
+// sameExcept(d2, d1, name): the two disks agree on every file but name
+//@ ghost sameExcept(d2 map[string][]byte, d1 map[string][]byte, name string) bool = forall n string :: {n in d2} n != name ==> (n in d2) == (n in d1) && d2[n] == d1[n]
+// overwritten(new, old, off, data, k): new is old with data[0..k) written at offset off
+//@ ghost overwritten(nw []byte, prev []byte, off int, data []byte, dfrom int, k int) bool = len(nw) == max(len(prev), off + k) && (forall i int :: {nw[i]} 0 <= i && i < len(nw) ==> nw[i] == ((off <= i && i < off + k) ? data[dfrom + i - off] : prev[i]))
+
+//@ extern os.OpenFile(name string, flag int, perm os.FileMode) (f *os.File, err error)
+//@   modifies ghost.disk, ghost.foff
+//@   ensures err == nil ==> f != nil && fname(f) == name && get(foff, f) == 0 && (name in disk) && sameExcept(disk, old(disk), name)
+//@   ensures err == nil && bit(flag, 9) ==> len(disk[name]) == 0
+//@   ensures err == nil && !bit(flag, 9) ==> ((name in old(disk)) ? disk[name] == old(disk)[name] : len(disk[name]) == 0)
+//@   ensures err != nil ==> disk == old(disk)
+//@ extern (io.Seeker).Seek(offset int64, whence int) (n int64, err error)
+//@   modifies ghost.rpos
+//@   ensures err == nil && offset == 0 && whence == 0 ==> get(rpos, recv) == 0
+//@ extern crypto/sha256.New() hash.Hash
+//@   modifies ghost.hashed
+//@   ensures result != nil && len(get(hashed, result)) == 0 && (result in hashed) && (forall h hash.Hash :: {h in hashed} h != result ==> (h in hashed) == (h in old(hashed)) && hashed[h] == old(hashed)[h])
+//@ extern io.MultiWriter(writers []io.Writer) io.Writer
+//@   ensures len(writers) == 2 ==> mwFile(result) == astype(writers[0], *os.File) && mwHash(result) == writers[1]
+// CopyN into MultiWriter(f, h): `written` bytes of the source reach the file (any prefix on
+// failure); on success all n bytes reached both the file and the hash
+//@ extern io.CopyN(dst io.Writer, src io.Reader, n int64) (written int64, err error)
+//@   modifies ghost.disk, ghost.foff, ghost.rpos, ghost.hashed
+//@   ensures 0 <= written && written <= n && (err == nil ==> written == n) && get(old(rpos), src) + written <= len(rdata(src))
+//@   ensures (fname(mwFile(dst)) in disk) && sameExcept(disk, old(disk), fname(mwFile(dst))) && overwritten(disk[fname(mwFile(dst))], old(disk)[fname(mwFile(dst))], get(old(foff), mwFile(dst)), rdata(src), get(old(rpos), src), written)
+//@   ensures get(foff, mwFile(dst)) == get(old(foff), mwFile(dst)) + written
+//@   ensures err == nil ==> get(rpos, src) == get(old(rpos), src) + n && (mwHash(dst) in hashed) && len(hashed[mwHash(dst)]) == len(get(old(hashed), mwHash(dst))) + n && (forall i int :: {hashed[mwHash(dst)][i]} 0 <= i && i < len(hashed[mwHash(dst)]) ==> hashed[mwHash(dst)][i] == (i < len(get(old(hashed), mwHash(dst))) ? get(old(hashed), mwHash(dst))[i] : rdata(src)[get(old(rpos), src) + i - len(get(old(hashed), mwHash(dst)))]))
+//@ extern (io.Reader).Read(p []byte) (n int, err error)
+//@   writes   p
+//@   modifies ghost.rpos
+//@   ensures 0 <= n && n <= len(p) && get(old(rpos), recv) + n <= len(rdata(recv)) && get(rpos, recv) == get(old(rpos), recv) + n
+//@   ensures forall i int :: {p[i]} 0 <= i && i < len(p) ==> p[i] == (i < n ? rdata(recv)[get(old(rpos), recv) + i] : old_p[i])
+// writing to a hash never fails and appends
+//@ extern (io.Writer).Write(p []byte) (n int, err error)
+//@   modifies ghost.hashed
+//@   ensures (recv in hashed) && len(hashed[recv]) == len(get(old(hashed), recv)) + len(p) && (forall i int :: {hashed[recv][i]} 0 <= i && i < len(hashed[recv]) ==> hashed[recv][i] == (i < len(get(old(hashed), recv)) ? get(old(hashed), recv)[i] : p[i - len(get(old(hashed), recv))]))
+//@ extern (hash.Hash).Sum(b []byte) []byte
+//@   fills   b
+//@   ensures len(result) == len(b) + 32 && (forall i int :: {result[i]} 0 <= i && i < len(result) ==> result[i] == (i < len(b) ? b[i] : sha(get(hashed, recv))[i - len(b)]))
+//@   ensures forall j int :: {sha(get(hashed, recv))[j]} 0 <= j && j < 32 ==> result[len(b) + j] == sha(get(hashed, recv))[j]
+//@ extern bytes.Equal(a []byte, b []byte) bool
+//@   pure
+//@   ensures result == (len(a) == len(b) && (forall i int :: {a[i]} 0 <= i && i < len(a) ==> a[i] == b[i]))
+// a write to the file stores a prefix of the buffer at the current offset
+//@ extern (*os.File).Write(b []byte) (n int, err error)
+//@   modifies ghost.disk, ghost.foff
+//@   ensures 0 <= n && n <= len(b) && (err == nil ==> n == len(b))
+//@   ensures (fname(recv) in disk) && sameExcept(disk, old(disk), fname(recv)) && overwritten(disk[fname(recv)], old(disk)[fname(recv)], get(old(foff), recv), b, 0, n)
+//@   ensures get(foff, recv) == get(old(foff), recv) + n
+//@ extern (*os.File).Truncate(size int64) error
+//@   modifies ghost.disk
+//@   ensures sameExcept(disk, old(disk), fname(recv)) && (fname(recv) in disk)
+//@   ensures result == nil ==> len(disk[fname(recv)]) == size && (forall i int :: {disk[fname(recv)][i]} 0 <= i && i < size && i < len(old(disk)[fname(recv)]) ==> disk[fname(recv)][i] == old(disk)[fname(recv)][i])
+//@   ensures result != nil ==> disk[fname(recv)] == old(disk)[fname(recv)]
+//@ extern (*os.File).Close() error
+//@ extern os.Remove(name string) error
+//@   modifies ghost.disk
+//@   ensures sameExcept(disk, old(disk), name) && (!(name in disk) || disk[name] == old(disk)[name])
+//@ extern os.Chtimes(name string, atime time.Time, mtime time.Time) error
+//@ extern (honnef.co/go/tools/lintcmd/cache.DiskCache).now() time.Time
+//@ extern io.Copy(dst io.Writer, src io.Reader) (written int64, err error)
+//@   modifies ghost.hashed
+//@   ensures forall h hash.Hash :: {h in hashed} h != dst ==> (h in hashed) == (h in old(hashed)) && hashed[h] == old(hashed)[h]
+
+// the crash invariant of the data file of output id out: whenever the file has the size that
+// index entries promise, it has the promised content
+//@ ghost dataOK(d map[string][]byte, name string, out OutputID, size int64) bool = (name in d) && len(d[name]) == size ==> sha(d[name]) == out
+
+//@ func (*DiskCache).copyFile
+//@   uses     shaspec, crash_prefix, crash_last, eq32
+//@   abstract defer
+//@   requires c != nil && size >= 0 && size == len(rdata(file)) && out == sha(rdata(file))
+//@   requires dataOK(disk, c.fileName(out, "d"), out, size)
+//@   modifies ghost.disk, ghost.foff, ghost.rpos, ghost.hashed
+//@   always   [crashsafe] dataOK(disk, c.fileName(out, "d"), out, size) && sameExcept(disk, old(disk), c.fileName(out, "d"))
+//@   at call io.CopyN#1 assert [bounded] (c.fileName(out, "d") in disk) && len(disk[c.fileName(out, "d")]) <= size
+//@   at call os.(*File).Write#1 assert [hashlen]  (h in hashed) && len(hashed[h]) == size && (forall i int :: {hashed[h][i]} 0 <= i && i < size - 1 ==> hashed[h][i] == rdata(file)[i]) && hashed[h][size-1] == buf[0]
+//@   at call os.(*File).Write#1 assert [agree]    agree32(sha(hashed[h]), out)
+//@   at call os.(*File).Write#1 assert [agree2]   agree32(sha(hashed[h]), sha(rdata(file)))
+//@   at call os.(*File).Write#1 assert [same]     len(hashed[h]) == len(rdata(file)) && hashed[h][size-1] == rdata(file)[size-1]
+//@   at call os.(*File).Write#1 assert [lastbyte] buf[0] == rdata(file)[size-1] && len(buf) == 1
+//@   at call os.(*File).Write#1 assert [prefix]   size - 1 <= len(disk[c.fileName(out, "d")]) && len(disk[c.fileName(out, "d")]) <= size && (forall i int :: {disk[c.fileName(out, "d")][i]} 0 <= i && i < size - 1 ==> disk[c.fileName(out, "d")][i] == rdata(file)[i]) && get(foff, f) == size - 1
+//@   ensures  [stored] result == nil ==> (c.fileName(out, "d") in disk) && len(disk[c.fileName(out, "d")]) == size && sha(disk[c.fileName(out, "d")]) == out
+
+// 32-byte arrays that agree element-wise are equal (the model keeps arrays zero outside bounds)
+//@ ghost agree32(a [32]byte, b [32]byte) bool = forall j int :: {a[j]} 0 <= j && j < 32 ==> a[j] == b[j]
+//@ group shaspec
+//@ axiom [sha_inj32] forall a []byte, b []byte :: {agree32(sha(a), sha(b))} agree32(sha(a), sha(b)) ==> len(a) == len(b) && (forall i int :: {a[i]} 0 <= i && i < len(a) ==> a[i] == b[i])
+//@ group
+//@ lemma eq32(a [32]byte, b [32]byte)
+//@   requires agree32(a, b)
+//@   ensures  a == b
+//@   trigger  agree32(a, b)
+
+// the two steps of the crash argument, as pure lemmas about byte sequences
+// (1) overwriting a proper prefix of a file keeps "right size ==> right content"
+//@ lemma crash_prefix(prev []byte, nw []byte, off int, data []byte, dfrom int, k int, size int, out OutputID)
+//@   uses     shaspec
+//@   requires overwritten(nw, prev, off, data, dfrom, k) && off == 0 && dfrom == 0 && 0 <= k && k < size && len(data) == size && out == sha(data) && (len(prev) == size ==> sha(prev) == out)
+//@   ensures  len(nw) == size ==> sha(nw) == out
+//@   trigger  overwritten(nw, prev, off, data, dfrom, k), sha(data)
+// (2) writing the last byte completes the content
+//@ lemma crash_last(prev []byte, nw []byte, off int, b []byte, n int, data []byte, size int, out OutputID)
+//@   uses     shaspec
+//@   requires overwritten(nw, prev, off, b, 0, n) && off == size - 1 && size >= 1 && 0 <= n && n <= 1 && len(b) == 1 && b[0] == data[size-1] && len(data) == size && out == sha(data) && size - 1 <= len(prev) && len(prev) <= size && (forall i int :: {prev[i]} 0 <= i && i < size - 1 ==> prev[i] == data[i]) && (len(prev) == size ==> sha(prev) == out)
+//@   ensures  len(nw) == size ==> sha(nw) == out
+//@   trigger  overwritten(nw, prev, off, b, 0, n), sha(data)
